@@ -834,7 +834,7 @@ class Fxp():
                                                                     nword=self.n_word, 
                                                                     nfrac=self.n_frac, 
                                                                     comp='-complex' if (isinstance(self.val, complex) or \
-                                                                        self.val.dtype == complex or \
+                                                                        getattr(self.val, 'dtype', None) == complex or \
                                                                         self.vdtype == complex) else '')
             else:
                 self._dtype = 'fxp-{sign}{nword}/{nfrac}'.format(sign='s' if self.signed else 'u', 
